@@ -393,6 +393,19 @@ func (h H) errPathsMode(fn *ssa.Function, c *ssa.Call, e ssa.Value, errIdx int, 
 							enter(b, errSucc, mode, en)
 						}
 						return
+					} else if isNilConst(rv) || h.P.NeverNil(rv, 0) {
+						// along this path the tested value is fixed (a result merged by a phi,
+						// a constructor's value): one side only is feasible
+						nilSucc, nonNilSucc := b.Succs[0], b.Succs[1]
+						if bo.Op == token.NEQ {
+							nilSucc, nonNilSucc = nonNilSucc, nilSucc
+						}
+						if isNilConst(rv) {
+							enter(b, nilSucc, mode, en)
+						} else {
+							enter(b, nonNilSucc, mode, en)
+						}
+						return
 					}
 				}
 				if mode == 0 {
